@@ -26,6 +26,7 @@ static struct {
 	int expect_ctx2, susp_open, wait_for_others, arm_rel, arm_code, no_cancel;
 	sim_event suspended_by_1, susp_item_done[MAXC]; int susp_item_sent[MAXC];
 	sim_event go, handler_seen;
+	int client_keys; char ck[MAXC]; int ckd[MAXC]; uint64_t ckd_stamp[MAXC];   // scenario 0: every client sets its own key first thing (a race on the first set_specific)
 } L;
 
 static void finalizer_obj(void *ctx) {
@@ -49,6 +50,7 @@ static void finalizer_root(void *ctx) {
 static void key_dtor0(void *v) { (void)v; L.keyd[0]++; L.keyd_stamp[0] = h_stamp(); h_progress(); }
 static void key_dtor1(void *v) { (void)v; L.keyd[1]++; L.keyd_stamp[1] = h_stamp(); h_progress(); }
 static void key_dtor2(void *v) { (void)v; L.keyd[2]++; L.keyd_stamp[2] = h_stamp(); h_progress(); }
+static void client_key_dtor(void *v) { int c = (int)((char *)v - L.ck); L.ckd[c]++; L.ckd_stamp[c] = h_stamp(); h_progress(); }
 
 static void release_obj(const char *who) {
 	// dropping the last reference of a suspended object is API misuse: the last release waits for open windows
@@ -62,7 +64,7 @@ static void item(void *ctx) {
 	intptr_t flags = (intptr_t)ctx;
 	L.items_started++;
 	// using the object through the queue's own reference while running on it
-	if (L.scenario == 0) { (void)dispatch_queue_get_label(L.q); if (dispatch_get_specific(&L.k0) != (void *)&L.k0) h_viol("specific-lost", "queue-specific value disappeared while an item of the queue was running"); }
+	if (L.scenario == 0) { (void)dispatch_queue_get_label(L.q); if (!L.client_keys && dispatch_get_specific(&L.k0) != (void *)&L.k0) h_viol("specific-lost", "queue-specific value disappeared while an item of the queue was running"); }
 	sim_point();
 	if (flags & 16) for (int k = 0; k < 6; k++) sim_point();   // keeps the drainer inside this item while the next one is pushed
 	if (flags & 1) { L.items_submitted++; dispatch_async_f(L.q, (void *)0, item); }   // submits a further item to the same queue
@@ -75,6 +77,10 @@ static void item(void *ctx) {
 static void *queue_client(void *arg) {
 	int c = (int)(intptr_t)arg;
 	sim_event_wait(&L.go, LIVENESS_NS);
+	if (L.client_keys) {
+		dispatch_queue_set_specific(L.q, &L.ck[c], &L.ck[c], client_key_dtor);
+		if (dispatch_queue_get_specific(L.q, &L.ck[c]) != (void *)&L.ck[c]) h_viol("specific-lost", "dispatch_queue_get_specific does not return the value this thread has just set (several threads set their first keys at once)");
+	}
 	for (int i = 0; i < L.nitems_per; i++) {
 		intptr_t fl = 0;
 		if (L.nested && i == 0) fl |= 1;
@@ -124,9 +130,12 @@ static void scen_queue(void) {
 	L.q = dispatch_queue_create_with_target("c17-q", g_chance(1, 2) ? DISPATCH_QUEUE_CONCURRENT : NULL, L.root);
 	L.obj = L.q;
 	dispatch_set_context(L.q, &L.ctx1); dispatch_set_finalizer_f(L.q, finalizer_obj);
-	dispatch_queue_set_specific(L.q, &L.k0, &L.k0, key_dtor0);
-	dispatch_queue_set_specific(L.q, &L.k1, &L.k1, key_dtor1);
-	if (g_chance(1, 2)) { dispatch_queue_set_specific(L.q, &L.k1, &L.k2, key_dtor2); /* replaces the value: the old destructor (1) runs once now */ }
+	L.client_keys = g_chance(1, 3);
+	if (!L.client_keys) {
+		dispatch_queue_set_specific(L.q, &L.k0, &L.k0, key_dtor0);
+		dispatch_queue_set_specific(L.q, &L.k1, &L.k1, key_dtor1);
+		if (g_chance(1, 2)) { dispatch_queue_set_specific(L.q, &L.k1, &L.k2, key_dtor2); /* replaces the value: the old destructor (1) runs once now */ }
+	}
 	sim_watch(L.q, 128);
 	// every client gets its own reference; the creator's reference is one of them
 	for (int i = 1; i < L.nclients; i++) dispatch_retain(L.q);
@@ -144,11 +153,20 @@ static void scen_queue(void) {
 	if (L.f_obj.count != 1) h_viol("finalizer-twice", "finalizer count %d", L.f_obj.count);
 	if (L.f_obj.stamp < L.last_item_end) h_viol("finalizer-early", "the finalizer ran before the last item of the queue had finished");
 	uint64_t t0 = sim_now();
+	if (L.client_keys) {
+		int all = 0;
+		while (!all && sim_now() - t0 < LIVENESS_NS) { all = L.f_root.count > 0; for (int c = 0; c < L.nclients; c++) if (!L.ckd[c]) all = 0; if (!all) sim_sleep_ns(100 * MSEC); }
+		for (int c = 0; c < L.nclients; c++) {
+			if (L.ckd[c] != 1) h_viol("key-destructor", "the destructor of the queue-specific value set by client %d ran %d times after the queue was gone (%d clients set their first keys at once)", c, L.ckd[c], L.nclients);
+			if (L.ckd_stamp[c] < L.last_item_end) h_viol("key-destructor", "a queue-specific destructor ran before the queue's last item had finished");
+		}
+	} else {
 	while ((!L.f_root.count || !L.keyd[0] || !(L.keyd[1] + L.keyd[2])) && sim_now() - t0 < LIVENESS_NS) sim_sleep_ns(100 * MSEC);
-	if (L.f_root.count != 1) h_viol("finalizer-missing", "the target queue's finalizer ran %d times after everything targeting it was gone", L.f_root.count);
 	if (L.keyd[0] != 1) h_viol("key-destructor", "the destructor of a queue-specific value ran %d times", L.keyd[0]);
 	if (L.keyd[1] + L.keyd[2] < 1 || L.keyd[1] > 1 || L.keyd[2] > 1) h_viol("key-destructor", "destructors of a replaced queue-specific value ran %d and %d times", L.keyd[1], L.keyd[2]);
 	if (L.keyd_stamp[0] < L.last_item_end) h_viol("key-destructor", "a queue-specific destructor ran before the queue's last item had finished");
+	}
+	if (L.f_root.count != 1) h_viol("finalizer-missing", "the target queue's finalizer ran %d times after everything targeting it was gone", L.f_root.count);
 	if (OWNED(L.obj)) h_viol("not-freed", "the queue's memory is still allocated after its finalizer ran and every reference was dropped");
 }
 
